@@ -541,3 +541,24 @@ impl<L> Opts<L> {
         Opts { loader, native: self.native, rdf_type: self.rdf_type, spaces: self.spaces }
     }
 }
+
+// ---------------------------------------------------------------- R15.12 an iterator over a fallible source that does not re-poll it
+pub struct Polling<I> {
+    pub src: I,
+    pub done: bool,
+}
+impl<I: Iterator<Item = Result<u32, String>>> Polling<I> {
+    pub fn pos_repoll(&mut self) -> Option<Result<u32, String>> {
+        self.src.next()
+    }
+    pub fn neg_fused(&mut self) -> Option<Result<u32, String>> {
+        if self.done {
+            return None;
+        }
+        let r = self.src.next();
+        if !matches!(r, Some(Ok(_))) {
+            self.done = true;
+        }
+        r
+    }
+}
